@@ -328,10 +328,11 @@ func (b *BlockList) parseHostFile(file *os.File) error {
 			if strings.HasPrefix(n, "#") {
 				break
 			}
-			canonical := dns.CanonicalName(n)
-			if !b.Exists(canonical) {
-				b.set(canonical)
-			}
+			// Stored whatever else already covers it: an entry another
+			// entry shadows today is what keeps blocking once that one
+			// is removed, and the saved list must reload to what it
+			// was saved from.
+			b.set(dns.CanonicalName(n))
 		}
 	}
 
